@@ -153,6 +153,18 @@ func C03(e *Env) {
 		}
 		cases = append(cases, c03Case{kind: "random", write: rng.Intn(2) == 0, syms: s, cut: -1, chunk: []int{0, 0, 1, 7}[rng.Intn(4)]})
 	}
+	// symbols that only the scripted histories use (the exhaustive and random parts above were built
+	// from the base alphabet): a directory with more entries than any fixed-size listing buffer, and a
+	// create-file that fails
+	manyDir := filepath.Join(root, "many4500")
+	must(os.MkdirAll(manyDir, 0o755))
+	for k := 0; k < 4500; k++ {
+		must(os.WriteFile(filepath.Join(manyDir, fmt.Sprintf("e%04d", k)), nil, 0o644))
+	}
+	alpha = append(alpha,
+		sym{"OPENDIR many", func(P string) wire.Req { return wire.P(wire.OpOpenDir, "/many4500") }},
+		sym{"CREATE no-parent", func(P string) wire.Req { return wire.P(wire.OpCreate, P+"/nodir/x.bin") }},
+	)
 	// scripted histories: interactions between the read, write and directory states on the same
 	// objects that are longer than the exhaustive bound and too specific for the random part
 	byName := map[string]int{}
@@ -180,7 +192,10 @@ func C03(e *Env) {
 		{"OPEN file", "OPEN missing", "READ 5@0"},
 		{"OPEN file", "OPEN dir", "READ 5@0"},
 		{"OPEN file", "READCD 0,1", "OPEN private old", "READCD 0,1", "READCD 1,0", "READ 5@0"},
-		{"OPENDIR emptyish", "RDE"},
+		{"OPENDIR many", "READDIR", "STAT file", "OPENDIR many", "RDE", "RDE2", "READDIR", "STAT missing"},
+		{"CREATE new", "WRITE 5", "CREATE no-parent", "WRITE 5", "STAT missing", "OPEN private new", "READ 10@size-2"},
+		{"CREATE existing", "WRITE 70000", "CREATE no-parent", "WRITE 70000", "WRITE 0", "CREATE existing", "WRITE 5"},
+		{"CREATE new", "OPENDIR ***DVD***/dir", "CREATE no-parent", "WRITE 5", "CREATE dir", "WRITE 5"},
 	} {
 		var syms []int
 		ok := true
@@ -357,6 +372,7 @@ func deliver(addr string, stream []byte, mode int, e *Env) ([]byte, string) {
 		return nil, "dial: " + err.Error()
 	}
 	defer c.Close()
+	c.EOFLimit = 256 << 20 // the whole response stream is collected (bulk listings of big directories are megabytes)
 	if mode == 1 {
 		c.Chunk = 1
 		if len(stream) > 4000 {
